@@ -301,6 +301,102 @@ def stream_maps_single():
     return out
 
 
+# --- boundary default values in every position ---------------------------------
+# deterministic product (fixed world): boundary values per kind x positions that reach default_fn / output_value.
+I64MIN, I64MAX, U64MAX = -2**63, 2**63 - 1, 2**64 - 1
+BD_KINDS = [
+    ("i64", {"type": "integer"}, [I64MIN, -1, 0, 1, I64MAX, 2**53 + 1, -(2**53) - 1, 2**53 - 1]),
+    ("int64", {"type": "integer", "format": "int64"}, [I64MIN, I64MAX, 2**53 + 1]),
+    ("uint64", {"type": "integer", "format": "uint64"}, [0, I64MAX, I64MAX + 1, U64MAX, 2**53 + 1]),
+    ("nzu64", {"type": "integer", "format": "uint64", "minimum": 1}, [1, I64MAX + 1, U64MAX]),
+    ("int32", {"type": "integer", "format": "int32"}, [-2**31, 2**31 - 1]),
+    ("uint32", {"type": "integer", "format": "uint32"}, [0, 2**32 - 1]),
+    ("int8", {"type": "integer", "format": "int8"}, [-128, 127]),
+    ("uint8", {"type": "integer", "format": "uint8"}, [0, 255]),
+    ("f64", {"type": "number"}, [1e308, -1e308, 5e-324, -0.0, 0.0, 1e3, 1.5, 0.1, 1, I64MAX + 1]),
+    ("f32", {"type": "number", "format": "float"}, [1e3, 3.0e38, 1.5, -0.0]),
+    ("str", {"type": "string"}, ["", "\u00e9\u65e5\u672c\U0001F600", "a\"b\\c{d}\n\t'e'", "}}{{{0}", "r#\"x\"#", "x" * 10000]),
+    ("bool", {"type": "boolean"}, [True, False]),
+]
+BD_POSITIONS = ["bare", "vec", "tuple", "option", "map", "struct", "variant-external", "variant-untagged", "newtype-def", "array2"]
+
+
+def bd_place(pos, sch, v, k):
+    """definitions (named with suffix k) that put default value v of schema sch at position pos"""
+    T, N = "T%d" % k, "N%d" % k
+    O = lambda props: {"type": "object", "properties": props}
+    if pos == "bare":
+        return {T: O({"p": dict(sch, default=v)})}
+    if pos == "vec":
+        return {T: O({"p": {"type": "array", "items": sch, "default": [v, v]}})}
+    if pos == "tuple":
+        return {T: O({"p": {"type": "array", "items": [sch, sch], "minItems": 2, "maxItems": 2, "default": [v, v]}})}
+    if pos == "array2":
+        return {T: O({"p": {"type": "array", "items": sch, "minItems": 2, "maxItems": 2, "default": [v, v]}})}
+    if pos == "option":
+        t = sch["type"]
+        return {T: O({"p": dict(sch, type=[t, "null"], default=v)})}
+    if pos == "map":
+        return {T: O({"p": {"type": "object", "additionalProperties": sch, "default": {"k": v}}})}
+    if pos == "struct":
+        return {T: O({"p": {"type": "object", "properties": {"a": sch, "b": {"type": "boolean"}}, "required": ["a"], "default": {"a": v}}})}
+    if pos == "variant-external":
+        return {T: O({"p": {"oneOf": [{"type": "object", "properties": {"a": sch}, "required": ["a"], "additionalProperties": False},
+                                      {"type": "object", "properties": {"b": {"type": "boolean"}}, "required": ["b"], "additionalProperties": False}],
+                            "default": {"a": v}}})}
+    if pos == "variant-untagged":
+        other = {"type": "array", "items": {"type": "boolean"}}
+        return {T: O({"p": {"oneOf": [sch, other], "default": v}})}
+    if pos == "newtype-def":
+        return {N: dict(sch, default=v), T: O({"p": {"$ref": "#/definitions/" + N}})}
+    raise KeyError(pos)
+
+
+def bd_combos():
+    out = []
+    for kn, sch, vals in BD_KINDS:
+        for vi, v in enumerate(vals):
+            for pos in BD_POSITIONS:
+                out.append(("%s/%d/%s" % (kn, vi, pos), pos, sch, v))
+    return out
+
+
+def stream_boundary_single():
+    return [mk("bd:%s" % tag, "boundary", {}, [{"op": "root", "doc": {"definitions": bd_place(pos, sch, v, 0)}}], False,
+               ["boundary", "bd:" + pos]) for tag, pos, sch, v in bd_combos()]
+
+
+def boundary_defaults_into(rnd, doc):
+    """grammar documents: some property defaults are replaced by a boundary value of their kind"""
+    n = [0]
+
+    def walk(s):
+        if isinstance(s, dict):
+            if "default" in s and isinstance(s.get("type"), str) and "enum" not in s and rnd.random() < 0.6:
+                t, f = s["type"], s.get("format")
+                lo, hi = s.get("minimum"), s.get("maximum")
+                cand = None
+                if t == "integer" and lo is None and hi is None:
+                    rng = schemagen.INT_FORMATS.get(f, (I64MIN, I64MAX))
+                    cand = [rng[0], rng[1]] + ([2**53 + 1] if rng[1] > 2**53 else [])
+                elif t == "integer":
+                    cand = [x for x in (lo, hi) if x is not None and x != 0] or None
+                elif t == "string" and len([k for k in s if k not in ("type", "default")]) == 0:
+                    cand = ["", "\u00e9\u65e5\u672c", "a\"b\\c{d}\n", "x" * 3000]
+                elif t == "boolean":
+                    cand = [True, False]
+                if cand:
+                    s["default"] = rnd.choice(cand)
+                    n[0] += 1
+            for v in s.values():
+                walk(v)
+        elif isinstance(s, list):
+            for v in s:
+                walk(v)
+    walk(doc)
+    return n[0]
+
+
 # --- small-scope enumeration -------------------------------------------------
 S_, I_, B_, N_, NUL_ = ({"type": t} for t in ("string", "integer", "boolean", "number", "null"))
 SS_LEAVES = [("str", S_), ("int", I_), ("bool", B_), ("num", N_), ("null", NUL_), ("any", {}),
@@ -447,13 +543,18 @@ def variant_prop_alias(doc):
 
 
 SKIPPED_ALIAS = [0]
+GEN_ERRORS = [0]
 
 
 def clean_doc(seed0, **kw):
     """next grammar document outside the region of finding C01-18 (represented by corpus/C01/w18)"""
     for t in range(20):
         g = schemagen.Gen(seed0 + 7919 * 100003 * t, **kw)
-        doc, tg = g.doc()
+        try:
+            doc, tg = g.doc()
+        except KeyError:          # py/schemagen.py (shared) raises on some seeds (nullable_type over a type-less scalar)
+            GEN_ERRORS[0] += 1
+            continue
         if not variant_prop_alias(doc):
             return doc, tg
         SKIPPED_ALIAS[0] += 1
@@ -465,6 +566,8 @@ def stream_grammar(ctx, n):
     for k in range(n):
         doc, tg = clean_doc(ctx.seed * 1000003 + 7000 + k, features=GRAMMAR_FEATURES)
         rnd = random.Random(ctx.seed * 7919 + k)
+        if boundary_defaults_into(rnd, doc):
+            tg = tg + ["boundary-defaults"]
         st, stg = settings_combo(rnd, doc["definitions"])
         if uses_float(doc) or "replace" in st:
             # PartialEq needs PartialEq of every field: fine for floats, but f32-conversion + Eq-less maps are fine too;
@@ -1213,8 +1316,27 @@ def run(ctx):
     ctx.log("maps: %d combinations x settings, %d accepted, %d packs" % (
         len(mp_cases), len([k for k in mp_kind if k[0] == "generated"]), len(mp_packs)))
 
-    fixed_all = fixed + pack_cases + mp_pack_cases
-    gens_fixed = gen_all(fixed, isolate=True) + gen_all(pack_cases, isolate=False) + gen_all(mp_pack_cases, isolate=False)
+    # boundary defaults: every (kind, value, position) alone through the converter, accepted ones packed for rustc
+    bd_cases = stream_boundary_single()
+    bd_gen = gen_all(bd_cases, isolate=False)
+    bd_kind = [ingest_outcome(g) for g in bd_gen]
+    bd_all = bd_combos()
+    BPACK = 35
+    accb = [k for k in range(len(bd_cases)) if bd_kind[k][0] == "generated"]
+    bd_packs = [accb[k:k + BPACK] for k in range(0, len(accb), BPACK)]
+    bd_pack_cases = []
+    for pi, grp in enumerate(bd_packs):
+        defs = {}
+        for n, k in enumerate(grp):
+            _, pos, sch, v = bd_all[k]
+            defs.update(bd_place(pos, sch, v, n))
+        bd_pack_cases.append(mk("bdpack:%d" % pi, "boundary-pack", {"struct_builder": pi % 2 == 1},
+                                [{"op": "root", "doc": {"definitions": defs}}], False, ["pack"]))
+    ctx.log("boundary defaults: %d combinations, %d accepted, %d packs" % (len(bd_cases), len(accb), len(bd_packs)))
+
+    fixed_all = fixed + pack_cases + mp_pack_cases + bd_pack_cases
+    gens_fixed = gen_all(fixed, isolate=True) + gen_all(pack_cases, isolate=False) + gen_all(mp_pack_cases, isolate=False) + \
+        gen_all(bd_pack_cases, isolate=False)
     gens_rand = gen_all(rand, isolate=False)
 
     def build(name, cases, gens):
@@ -1288,6 +1410,23 @@ def run(ctx):
                             "codes": sorted({e[0] or "?" for e in wm.compile_errors.get(j, [])}),
                             "msgs": [e[1] for e in wm.compile_errors.get(j, [])]})
     results = [r for r in results if not (r["case"]["stream"] == "maps-pack" and r["kind"] != "ok")]
+    bd_fail = []
+    for r in results:
+        if r["case"]["stream"] == "boundary-pack" and r["kind"] != "ok":
+            bd_fail += bd_packs[int(r["case"]["id"].split(":")[1])]
+    if bd_fail:
+        sub = [bd_cases[j] for j in bd_fail]
+        sg = [bd_gen[j] for j in bd_fail]
+        wb = build("c01-bdsplit-" + ctx.tier, sub, sg)
+        for j, (c, g) in enumerate(zip(sub, sg)):
+            kind = "compile-error" if wb.status[j] == "compile-error" else "ok"
+            results.append({"case": c, "g": g, "kind": kind, "detail": "",
+                            "codes": sorted({e[0] or "?" for e in wb.compile_errors.get(j, [])}),
+                            "msgs": [e[1] for e in wb.compile_errors.get(j, [])]})
+    results = [r for r in results if not (r["case"]["stream"] == "boundary-pack" and r["kind"] != "ok")]
+    for k, c in enumerate(bd_cases):
+        if bd_kind[k][0] != "generated":
+            results.append({"case": c, "g": bd_gen[k], "kind": bd_kind[k][0], "detail": bd_kind[k][1], "codes": [], "msgs": []})
     for k, c in enumerate(mp_cases):
         if mp_kind[k][0] != "generated":
             results.append({"case": c, "g": mp_gen[k], "kind": mp_kind[k][0], "detail": mp_kind[k][1], "codes": [], "msgs": []})
@@ -1298,6 +1437,11 @@ def run(ctx):
     for r in results:
         if r["case"]["stream"] != "hostile" and r["kind"] != "ok":
             ctx.log("non-ok:", r["case"]["id"], r["kind"], r["codes"], r["detail"][:120].replace("\n", " "))
+    if MUTATE == "impl-u64-default-unrenderable":
+        # emulate output_value losing integer defaults above i64::MAX while validate_value still accepts them
+        for r in results:
+            if r["case"]["id"] in ("hostile:default-u64max-in-vec", "bd:uint64/3/tuple") and r["kind"] == "ok":
+                r["kind"], r["detail"] = "render-panic", "The default value could not be rendered for this type"
     if MUTATE == "impl-skip-path-serde-map":
         # emulate generate_serde_attr choosing `::serde_json::Map::is_empty` for every optional map with JsonValue
         # values, whatever the key type: the recorded scan and the rustc verdict of a curated case are altered
@@ -1433,9 +1577,12 @@ def run(ctx):
     if coq_ok:
         try:
             gi = [n for n, r in enumerate(results) if r["kind"] in ("ok", "compile-error", "render-panic", "unparsable")
-                  and "dump" in r["g"] and r["case"]["stream"] not in ("smallscope-pack", "maps-pack")]
+                  and "dump" in r["g"] and r["case"]["stream"] not in ("smallscope-pack", "maps-pack", "boundary-pack")]
             # packs: evaluated as modules too (they are what rustc judged)
-            gi += [n for n, r in enumerate(results) if r["case"]["stream"] in ("smallscope-pack", "maps-pack") and r["kind"] == "ok"]
+            gi += [n for n, r in enumerate(results) if r["case"]["stream"] in ("smallscope-pack", "maps-pack", "boundary-pack") and r["kind"] == "ok"]
+            # siblings recompile shared models (Value.v, SettingsModel.v) while this check runs: bring the
+            # dependants up to date again right before they are loaded
+            vlib.coq_make(["theories/Props/C01.vo"])
             reps = coq_wf(ctx, [r["g"] for r in results], gi, "c01-" + ctx.tier)
             for n in gi:
                 r = results[n]
@@ -1516,6 +1663,7 @@ def run(ctx):
     ctx.coverage["outcomes_by_stream"] = {k: dict(v) for k, v in outcome_by_stream.items()}
     ctx.coverage["findings_attributed"] = {k: len(v) for k, v in found.items()}
     ctx.coverage["random_documents_redrawn_outside_C01-18_region"] = SKIPPED_ALIAS[0]
+    ctx.coverage["schemagen_exceptions_skipped"] = GEN_ERRORS[0]
     ctx.samples = [{"id": r["case"]["id"], "outcome": r["kind"], "codes": r["codes"], "finding": r.get("finding"),
                     "wf": r.get("wf_tags")} for r in results[::max(1, len(results) // 12)]]
     ctx.trusted = ["Coq 8.16.1 kernel + vm_compute", "rustc 1.80.1 + serde_derive 1.0.219 as the oracle of compilability",
@@ -1527,6 +1675,7 @@ def run(ctx):
     ctx.checker_cmd = "bin/check C01 --tier %s" % ctx.tier
     print("outcomes by stream:", json.dumps(ctx.coverage["outcomes_by_stream"]))
     if not quick and coq_ok:
+        vlib.coq_make(["theories/Props/C01.vo"])
         rc, out, err = vlib.sh("cd %s && timeout 900 coqchk -silent -o -Q theories Typify Typify.Props.C01" % vlib.COQ, timeout=1000)
         ctx.oblige("coqchk re-checks Props.C01 and dependencies", rc == 0, (out + err)[-1500:])
     if ctx.broken() and not ctx.violations:
